@@ -617,29 +617,28 @@ Definition exempt (t : nat) : bool := Qleb (1 - tol)%Q (t_progress c t).
 Definition initialize (o : opts) (s : pstate) : pstate :=
   let si := o_init_state o in let li := o_init_log o in
   let s1 :=
-    mkP (if li then 0 else time s) (if li then StNone else status s) (cpl s)
+    mkP (if li then 0 else time s) (if li then StNone else status s) (if si then 0%Q else cpl s)
         (if si then tab (nT c) (fun t =>
                     let x := init_tlive t in
-                    if li && exempt t then set_st x TFinished else x) (td s)
+                    if li && exempt t then set_st x TFinished else x) init_tlive
          else td s)
-        (if si then tab (nW c) (fun _ => mkRL RFree []) (wd s) else wd s)
-        (if si then tab (nF c) (fun _ => mkRL RFree []) (fd s) else fd s)
-        (cd s)
-        (if si then tab (nWP c) (fun _ => []) (wpc s) else wpc s)
-        (if li then tab (nT c) (fun _ => mkTLog [] [] [] []) (tl s) else tl s)
-        (if li then tab (nW c) (fun _ => mkRLog [] [] []) (wl s) else wl s)
-        (if li then tab (nF c) (fun _ => mkRLog [] [] []) (fl s) else fl s)
-        (if li then tab (nC c) (fun _ => mkCLog [] []) (cl s) else cl s)
-        (if li then tab (nWP c) (fun _ => mkWPLog [] []) (wpl s) else wpl s)
-        (if li then tab (nTeam c) (fun _ => []) (teaml s) else teaml s)
+        (if si then tab (nW c) (fun _ => mkRL RFree []) (fun _ => mkRL RFree []) else wd s)
+        (if si then tab (nF c) (fun _ => mkRL RFree []) (fun _ => mkRL RFree []) else fd s)
+        (if si then tab (nC c) (fun _ => mkCL CNone None) (fun _ => mkCL CNone None) else cd s)
+        (if si then tab (nWP c) (fun _ => []) (fun _ => []) else wpc s)
+        (if li then tab (nT c) (fun _ => mkTLog [] [] [] []) (fun _ => mkTLog [] [] [] []) else tl s)
+        (if li then tab (nW c) (fun _ => mkRLog [] [] []) (fun _ => mkRLog [] [] []) else wl s)
+        (if li then tab (nF c) (fun _ => mkRLog [] [] []) (fun _ => mkRLog [] [] []) else fl s)
+        (if li then tab (nC c) (fun _ => mkCLog [] []) (fun _ => mkCLog [] []) else cl s)
+        (if li then tab (nWP c) (fun _ => mkWPLog [] []) (fun _ => mkWPLog [] []) else wpl s)
+        (if li then tab (nTeam c) (fun _ => []) (fun _ => []) else teaml s)
         (if li then [] else orgl s)
         (if li then [] else costl s) in
   (* workflow.initialize: critical_path_length = 0; update_PERT_data(0); check_state(-1, READY) *)
   let s2 := if si then check_ready (update_pert 0 (with_cpl s1 0%Q)) else s1 in
-  (* product.initialize: each component: state NONE, placed None, then check_state *)
+  (* product.initialize: each component: state NONE, placed None (done above), then check_state *)
   if si then
-    with_cd s2 (tab (nC c) (fun k =>
-                           mkCL (comp_check (with_cd s2 (upd (cd s2) k (mkCL CNone None))) k) None) (cd s2))
+    with_cd s2 (tab (nC c) (fun k => mkCL (comp_check s2 k) None) (cd s2))
   else s2.
 
 (* ----------------------------------------------------------------- the loop *)
